@@ -144,13 +144,15 @@ var scalarNames = []string{"bool", "int8", "int16", "int32", "int64", "int", "ui
 var namedStructs = map[string]reflect.Type{
 	"Inner": reflect.TypeOf(Inner{}), "Pair": reflect.TypeOf(Pair{}), "Deep": reflect.TypeOf(Deep{}),
 	"Misc": reflect.TypeOf(Misc{}), "Opts": reflect.TypeOf(Opts{}), "Tree": reflect.TypeOf(Tree{}),
+	"Hidden": reflect.TypeOf(Hidden{}), "Dashed": reflect.TypeOf(Dashed{}), "DashedDup": reflect.TypeOf(DashedDup{}),
+	"Neighbours": reflect.TypeOf(Neighbours{}),
 }
-var namedStructNames = []string{"Inner", "Pair", "Deep", "Misc", "Opts", "Tree"}
+var namedStructNames = []string{"Inner", "Pair", "Deep", "Misc", "Opts", "Tree", "Hidden", "Dashed", "DashedDup", "Neighbours"}
 
 // ---- type descriptions (serialisable: replay files rebuild the reflect.Type from them) ----
 
 type TyDesc struct {
-	K      string      `json:"k"` // scalar | named | ptr | list | struct (top level only)
+	K      string      `json:"k"` // scalar | named | ptr | list | struct (top level; nested only in build cases) | raw (a kind without parser) | cat (build catalogue)
 	Name   string      `json:"name,omitempty"`
 	Elem   *TyDesc     `json:"elem,omitempty"`
 	Fields []FieldDesc `json:"fields,omitempty"`
@@ -158,6 +160,7 @@ type TyDesc struct {
 type FieldDesc struct {
 	Name string  `json:"name"` // graphql name (lower-case first letter); Go name is the capitalised form
 	Opt  bool    `json:"opt,omitempty"`
+	Tag  *string `json:"tag,omitempty"` // when set: the raw text of the graphql tag (build cases)
 	T    *TyDesc `json:"t"`
 }
 
@@ -175,6 +178,18 @@ func (d *TyDesc) reflectType() reflect.Type {
 			panic("unknown struct " + d.Name)
 		}
 		return t
+	case "raw":
+		t, ok := rawKinds[d.Name]
+		if !ok {
+			panic("unknown raw kind " + d.Name)
+		}
+		return t
+	case "cat":
+		t, ok := buildCatalogue[d.Name]
+		if !ok {
+			panic("unknown catalogue struct " + d.Name)
+		}
+		return t
 	case "ptr":
 		return reflect.PtrTo(d.Elem.reflectType())
 	case "list":
@@ -185,6 +200,9 @@ func (d *TyDesc) reflectType() reflect.Type {
 			tag := f.Name
 			if f.Opt {
 				tag += ",optional"
+			}
+			if f.Tag != nil {
+				tag = *f.Tag
 			}
 			fs = append(fs, reflect.StructField{Name: strings.ToUpper(f.Name[:1]) + f.Name[1:], Type: f.T.reflectType(),
 				Tag: reflect.StructTag(`graphql:"` + tag + `"`)})
@@ -291,10 +309,16 @@ func mtyOfD(rt reflect.Type, seen map[reflect.Type]int) *MTy {
 		}
 		for i := 0; i < rt.NumField(); i++ {
 			f := rt.Field(i)
+			if f.PkgPath != "" {
+				continue // unexported: no input field
+			}
 			tags := strings.Split(f.Tag.Get("graphql"), ",")
 			name := tags[0]
 			if name == "" {
 				name = lowerFirst(f.Name)
+			}
+			if name == "-" {
+				continue
 			}
 			ft := mtyOfD(f.Type, seen)
 			for _, t := range tags[1:] {
